@@ -172,7 +172,9 @@ def global_writers(repo, res):
     res.check(not direct, "direct-writers", "unyt/*.py", "a statement writes into a process-global table", "none", direct, rid=r2)
     # parameter write summaries
     reg = repo.mod(REG)
-    lk = reg.func("_lookup_unit_symbol")
+    from rules.anchors import lookup_symbol
+
+    lk = lookup_symbol(repo)
     sp = repo.mod(US).func("_split_prefix")
     res.check(_writes_param(lk, lk.params[1]) and not _writes_param(sp, sp.params[1]), "summaries", REG, "summary: _lookup_unit_symbol writes its table parameter, _split_prefix only reads it", rid=r2)
     bad = []
@@ -181,7 +183,7 @@ def global_writers(repo, res):
         for q, fns in mod.funcs.items():
             for f in fns:
                 for c in walk_no_nested(f.node):
-                    if isinstance(c, ast.Call) and norm(c.func) == "_lookup_unit_symbol" and len(c.args) >= 2:
+                    if isinstance(c, ast.Call) and norm(c.func) == lk.name and len(c.args) >= 2:
                         n_calls += 1
                         a = c.args[1]
                         cls_ = "Global" if norm(a) in GLOBAL_TABLES else "ok"
